@@ -63,7 +63,14 @@ def check(w):
     if len(base) != g["distinct"] or len(base) < 1000:
         raise Broken("scenario generation: %d lines" % len(base))
     scen = []
+    nts = 0
     for k, s in enumerate(base):
+        if s.get("tslash") and quick:
+            if not s["escapes"]:
+                continue
+            nts += 1
+            if nts % 2:
+                continue    # quick tier: every second effective trailing-slash spelling
         for rv in ("client", "daemon"):
             scen.append(dict(s, recv=rv, delete=(k % 2 == 0), **{"class": "hostile-list"}))
             # ... and with file data for the hostile entry pushed WITHOUT a request (the receiver accepts data for any index
@@ -129,7 +136,7 @@ def check(w):
         "states": r["distinct"], "transitions": r["generated"], "traces_validated_against_impl": len(obs), "exhaustive": True,
         "samples": [{"name": o["name"], "t": o["t"], "recv": o["recv"], "sub": o["sub"], "result": o["result"], "err": o["err"][:100]} for o in (eff[:2] + [o for o in obs if o["class"] == "daemon-subdir"][:2])],
         "evaluations": len(obs), "distinct_nontrivial": len(eff),
-        "rule": "hostile entry names of 1..3 components over {a, l (pre-existing link out), lf (link to outside file), s (link out sent first in the same list), ..} optionally absolute, "
+        "rule": "hostile entry names of 1..3 components over {a, l (pre-existing link out), lf (link to outside file), s (link out sent first in the same list), ..} optionally absolute, optionally spelled with a trailing slash, "
                 "x entry type {reg, dir, lnk, fifo, sock, chr} x {s sent first or not} x --delete on/off, on the real client receiver and a writable daemon module (run as root with -rlptgoD); "
                 "the same lists with file data pushed for the hostile entry without a request; plus the daemon's destination sub-directory argument over a traversal grammar, plus random longer lists; non-trivial = a path-joining receiver would reach the outside region (Confine!Escapes)",
         "by_class_and_result": {"%s/%s" % k: n for k, n in sorted(by.items())},
